@@ -105,6 +105,18 @@ T = [
     ("c03_finish_flag_before_summary", "C03/R4", B,
      "    drop(sender.unbounded_send(Ok(Event::new(\n        event::Cucumber::ParsingFinished {\n            features,\n            rules,\n            scenarios,\n            steps,\n            parser_errors,\n        },\n    ))));\n\n    into.finish();",
      "    into.finish();\n\n    drop(sender.unbounded_send(Ok(Event::new(\n        event::Cucumber::ParsingFinished {\n            features,\n            rules,\n            scenarios,\n            steps,\n            parser_errors,\n        },\n    ))));"),
+    # ---- C09
+    ("c09_skipped_reported_as_passed_to_after_hook", "C09/R4", B,
+     "            Self::StepSkipped(_) => StepSkipped,", "            Self::StepSkipped(_) => event::ScenarioFinished::StepPassed,"),
+    ("c09_fresh_world_for_every_step", "C09/R2", B,
+     "            let mut world = if let Some(w) = world_opt {\n                w\n            } else {", "            drop(world_opt);\n            let mut world = {"),
+    ("c09_world_kept_in_executor", "C09/R1", B,
+     "    /// [`Scenario`]s storage.\n    ///\n    /// [`Scenario`]: gherkin::Scenario\n    storage: Features,\n}", "    /// [`Scenario`]s storage.\n    ///\n    /// [`Scenario`]: gherkin::Scenario\n    storage: Features,\n\n    /// Last used `World`.\n    #[allow(dead_code)]\n    last_world: Option<W>,\n}\n//+\n            storage,\n        }\n    }\n//=\n            storage,\n            last_world: None,\n        }\n    }"),
+    ("c09_take_world_loses_skipped_world", "C09/R3", B,
+     "            Self::BeforeHookPanicked { world, .. }\n            | Self::StepSkipped(world)\n            | Self::StepPanicked { world, .. } => world.take(),",
+     "            Self::BeforeHookPanicked { world, .. }\n            | Self::StepPanicked { world, .. } => world.take(),\n            Self::StepSkipped(_) => None,"),
+    ("c09_after_hook_without_world", "C09/R5", B,
+     "                    &ev,\n                    world.as_mut(),", "                    &ev,\n                    None,"),
     # ---- C10
     ("c10_world_new_outside_catch", "C10/R1", B,
      "                match AssertUnwindSafe(async { W::new().await })\n                    .catch_unwind()\n                    .then_yield()\n                    .await\n                {\n                    Ok(Ok(w)) => w,",
@@ -169,10 +181,18 @@ def main():
             sh(["git", "-C", wt, "checkout", "--", "."])
             p = os.path.join(wt, path)
             s = open(p).read()
-            if s.count(old) != 1:
-                print(f"!! {name}: anchor text occurs {s.count(old)} times in {path} — not generated")
+            extra = []
+            if "\n//+\n" in new:
+                new, rest = new.split("\n//+\n", 1)
+                o2, n2 = rest.split("\n//=\n", 1)
+                extra.append((o2, n2))
+            if s.count(old) != 1 or any(s.count(o2) != 1 for o2, _ in extra):
+                print(f"!! {name}: anchor text occurs {s.count(old)} times in {path} (extra: {[s.count(o2) for o2, _ in extra]}) — not generated")
                 continue
-            open(p, "w").write(s.replace(old, new))
+            s = s.replace(old, new)
+            for o2, n2 in extra:
+                s = s.replace(o2, n2)
+            open(p, "w").write(s)
             d = sh(["git", "-C", wt, "diff"])
             with open(os.path.join(HERE, name + ".patch"), "w") as f:
                 f.write(f"# expect: {expect}\n# control: one-instance breakage of rule {expect}; must compile; generated by controls/make.py\n")
